@@ -13,7 +13,8 @@ VARIABLE i
 ToSet(q) == {q[k] : k \in 1..Len(q)}
 FoldOf(r) == [c \in {r.fold[k][1] : k \in 1..Len(r.fold)} |->
                  r.fold[CHOOSE k \in 1..Len(r.fold) : r.fold[k][1] = c][2]]
-FilesOf(q) == {[n |-> q[k][1], c |-> q[k][2]] : k \in 1..Len(q)}
+\* files are logged in the container's own order
+FilesOf(q) == {[n |-> q[k][1], c |-> q[k][2], i |-> k] : k \in 1..Len(q)}
 ToksOf(q) == [k \in 1..Len(q) |-> [s |-> q[k][1], c |-> q[k][2]]]
 QOf(x) == QComps(ToksOf(x.toks))
 NotFound == "FileNotFoundError"
@@ -81,7 +82,9 @@ FsChecked(r) ==
             /\ (got \subseteq want \/ Report("walk.extra", "walks", j, 0, got \ want))
             /\ ((\A key \in got : CountKey(fold, w.items, key) <= Cardinality({f \in fs : Key(fold, f.n) = key}) \/ key \notin want)
                   \/ Report("walk.twice", "walks", j, 0, want))
-            /\ (ItemsLookupOK(fold, fs, w.items) \/ Report("walk.lookup", "walks", j, 0, want))
+            \* (a directory holds names differing only in case side by side: nothing to win)
+            /\ ((r.backend = "raw" /\ ~Unambiguous(fold, fs)) \/ ItemsLookupOK(fold, fs, w.items)
+                  \/ Report("walk.lookup", "walks", j, 0, want))
 
 (* ---- chains ---------------------------------------------------------------------- *)
 MemberFs(r, m) == FilesOf(r.members[m].files)
